@@ -57,6 +57,31 @@ def pos6(t):
     return tuple(float(x) for x in a[:6])
 
 
+def _rotvec_to_R(w):
+    w = np.asarray(w, float)
+    th = float(np.linalg.norm(w))
+    if th < 1e-12:
+        return np.eye(3)
+    k = w / th
+    K = np.array([[0, -k[2], k[1]], [k[2], 0, -k[0]], [-k[1], k[0], 0]])
+    return np.eye(3) + math.sin(th) * K + (1 - math.cos(th)) * (K @ K)
+
+
+def ref_builtin_distance(a6, b6, dmode):
+    """Straight-line (dmode 0) or arc distance (dmode 1: norm of the six-vector of inv(A) B) from the 6 pose floats; None where
+    the relative rotation is within 1e-4 of half a turn (the library's log is unreliable there -- C01's business)."""
+    a6, b6 = np.asarray(a6, float), np.asarray(b6, float)
+    dp = float(np.linalg.norm(b6[:3] - a6[:3]))
+    if dmode != 1:
+        return dp
+    E = _rotvec_to_R(a6[3:]).T @ _rotvec_to_R(b6[3:])
+    v = np.array([E[2, 1] - E[1, 2], E[0, 2] - E[2, 0], E[1, 0] - E[0, 1]]) * 0.5
+    ang = math.atan2(float(np.linalg.norm(v)), (float(np.trace(E)) - 1) * 0.5)
+    if abs(ang - math.pi) < 1e-4:
+        return None
+    return math.sqrt(dp * dp + ang * ang)
+
+
 # --------------------------------------------------------------------------- pure call-backs (custom mode)
 
 def d_euclid3(a, b):
@@ -312,6 +337,15 @@ class RRTRun:
             def w_dist(a, b):
                 d = cls.distance(pl, a, b)
                 run._rec_dist(a, b, d)
+                # "the distance to its parent" in the built-in pipeline is the planner's documented distance mode: straight
+                # line between the positions (0) or arc distance, sqrt(|dp|^2 + angle^2) (1).  Every cost, window and
+                # cheapest-parent comparison is fed from this one function, so a wrong metric is consistently wrong
+                # everywhere else; it is compared here with an independent evaluation.
+                ref = ref_builtin_distance(pos6(a), pos6(b), cfg["dmode"])
+                if ref is not None and abs(fl(d) - ref) > 1e-6 * (1.0 + ref):
+                    raise Violation("T2-metric", "distance mode %d: the planner measured %.9f between %s and %s, the %s distance is %.9f" % (
+                        cfg["dmode"], fl(d), np.round(pos6(a), 4).tolist(), np.round(pos6(b), 4).tolist(),
+                        "arc" if cfg["dmode"] == 1 else "straight-line", ref), {"dmode": cfg["dmode"]})
                 return d
 
             def w_coll(a, b):
@@ -756,13 +790,16 @@ def gen_trace(seed):
     r = stream(seed, "cfg")
     mode = r.choice(["builtin", "custom"])
     B = r.choice([2.0, 5.0, 10.0])
-    rot = r.choice([2 * math.pi, 1.0, 0.0]) if mode == "custom" else r.choice([2 * math.pi, 1.0])
+    rot = r.choice([2 * math.pi, 1.0, 0.0]) if mode == "custom" else r.choice([2 * math.pi, 1.0, 1.0, 0.0])
     bounds = [[-B, B]] * 3 + [[-rot, rot]] * 3
     if r.random() < 0.25:
         # per-axis, asymmetric sampling bounds (the start pose stays inside them)
         bounds = [[round(-B * r.uniform(0.3, 1.0), 3), round(B * r.uniform(0.3, 1.0), 3)] for _ in range(3)] + [[-rot, rot]] * 3
     origin = [0.0] * 6 if r.random() < 0.4 else [round(r.uniform(bounds[i][0] / 2, bounds[i][1] / 2), 3) for i in range(3)] + [
         round(r.uniform(-rot / 2, rot / 2), 3) for _ in range(3)]
+    if origin != [0.0] * 6 and r.random() < 0.3:
+        # the start pose is not a sample: it may carry an orientation outside (or with collapsed rotation bounds, unlike) anything drawn
+        origin = origin[:3] + [round(r.uniform(-1.5, 1.5), 3) for _ in range(3)]
     iters = pick_weighted(r, [(1, 0.6), (2, 0.6), (r.randint(3, 10), 3.0), (r.randint(11, 60), 4.0),
                               (r.randint(61, 150), 1.2), (r.randint(151, 400), 0.3)])
     dmin = r.choice([0.01, 0.1, 0.1, 0.5, 1.0])
